@@ -15,7 +15,7 @@ ASSUME = [
 def documented_layout(run):
     """the server layout file as documented (first yaml block of the 'Server generation' section)"""
     import re
-    doc = open("/repo/docs/reference/templates/template_layout.md").read()
+    doc = open(os.path.join(REPO, "docs/reference/templates/template_layout.md")).read()
     m = re.search(r"## Server generation.*?```yaml\n(.*?)```", doc, re.S)
     if not m or "skip_exists" not in m.group(1):
         raise Infra("the documented server layout cannot be extracted from docs/reference/templates/template_layout.md")
